@@ -144,7 +144,7 @@ def run(repo, rep):
                 rep.fail('C19.c', '%s:env:%s' % (f.qualname, src(c)), '%s:%d' % (f.module.relpath, c.lineno),
                          '%s reads %s inside the printing pipeline' % (f.key, src(c)))
     # sort keys: the wrapper used for sorting compares values first, falls back without identity
-    srt = m.classes.get('_AlwaysSortable')
+    srt = m.classes.get(__import__('engine.roles', fromlist=['x']).name(repo, 'sortable_cls'))
     if srt is not None:
         lt = srt.methods.get('__lt__')
         n += 1
